@@ -142,6 +142,51 @@ def oracle(res):
     return found
 
 
+KF_GAP = "private-use-character-missing-from-a-translation"
+
+
+def table_gap_oracle(res):
+    """a character that every other language's Unicode tables define and one language's do not is spoken as itself there:
+    for the private-use code points (Symbol-font pieces, the library's own markers) that is a marker character in the speech"""
+    from . import ruleeval as RE
+    base = os.path.join(C.RULES, "Languages")
+    tabs = {}
+    for l in ST.languages():
+        d = os.path.join(base, *l.split("-"))
+        t = set()
+        for f in ("unicode.yaml", "unicode-full.yaml"):
+            p = os.path.join(d, f)
+            if os.path.exists(p):
+                t |= set(RE.load_unicode(p))
+        if t:
+            tabs[l] = t
+    found = 0
+    for l, t in sorted(tabs.items()):
+        others = [tabs[m] for m in tabs if m != l]
+        if len(others) < 3:
+            continue
+        gaps = sorted(c for c in set.intersection(*others) if c not in t)
+        res.extra.setdefault("unicode_table_gaps", {})[l] = len(gaps)
+        gaps = [c for c in gaps if dirty(chr(c))] + [c for c in gaps if not dirty(chr(c))][:10]
+        for c in gaps[:60]:
+            r = C.one_session([["set_preference", "TTS", "None"], ["set_preference", "Language", l], ["set_mathml", "<math><mi>x</mi><mo>&#x%X;</mo><mi>y</mi></math>" % c], ["get_spoken_text"]])["res"]
+            sp = r[3].get("ok")
+            res.add_case(("table-gap", l, c), nontrivial=True)
+            # a plain symbol spoken as itself is a gap of the translation, not a marker in the speech: only what C05 forbids is reported
+            if sp is not None and dirty(sp):
+                kf = next((k for k in C.known_findings("C05") if k["id"] == KF_GAP), None)
+                if kf and ("0x%x" % c) in kf.get("gaps", {}).get(l, []):
+                    res.known("%s: %s has no words for U+%04X" % (KF_GAP, l, c))
+                    continue
+                found += 1
+                res.violation("%s: U+%04X has words in every other language's Unicode tables but not here: the speech of 'x %s y' is %r" % (l, c, chr(c), sp[:80]),
+                              {"kind": "speech", "prefs": {"Language": l, "SpeechStyle": "ClearSpeak", "Verbosity": "Medium"},
+                               "mathml": "<math><mi>x</mi><mo>&#x%X;</mo><mi>y</mi></math>" % c, "what": "speech", "why": "the character itself", "got": sp})
+                if found >= 3:
+                    return found
+    return found
+
+
 def run(res):
     res.rule = ("every language x {ClearSpeak, SimpleSpeak} x verbosity (quick: Medium + 6 sampled) with one capital-letter / override / rate "
                 "preference each, TTS=None; corpus: 25 fixed + seeded textbook expressions + characters only in the full Unicode table or in "
@@ -149,10 +194,11 @@ def run(res):
     generate(res)
 
     def on_broken(log):
-        return oracle(res) > 0
+        return oracle(res) + table_gap_oracle(res) > 0
     proved = C.check_proofs(res, "C05", ["Props/C05.vo"], "Props/C05.v", search=on_broken)
     if proved:
         oracle(res)
+        table_gap_oracle(res)
     res.trusted += ["harness op h_yaml_texts (yaml-rust) for the literal texts of the rule files"]
     res.assumptions += ["what the rules and the Unicode tables say for a character that is in no table, and TTS markup (C13), are exercised by the oracle, not proved",
                         "a character of the INPUT that is itself private-use and in no table is spoken as itself: not counted"]
